@@ -23,6 +23,7 @@ from dataclasses import dataclass, field, asdict
 from typing import Any, Callable, Dict, List, Optional, Tuple
 
 VERIF = os.path.dirname(os.path.dirname(os.path.abspath(__file__)))
+_REPO = os.environ.get("VERIF_REPO", "/repo").rstrip("/")
 EXIT_OK, EXIT_VIOLATION, EXIT_HARNESS = 0, 1, 2
 
 
@@ -94,8 +95,8 @@ def _collect_functions(fn: Callable, kwargs: Dict[str, Any]) -> Tuple[List[str],
         if event == "call":
             co = frame.f_code
             f = co.co_filename
-            if f.startswith("/repo/skepticoin/"):
-                seen.add(f[len("/repo/"):-3].replace("/", ".") + ":" + co.co_qualname)
+            if f.startswith(_REPO + "/skepticoin/"):
+                seen.add(f[len(_REPO) + 1:-3].replace("/", ".") + ":" + co.co_qualname)
 
     err = None
     out = None
@@ -335,6 +336,8 @@ def main(argv: List[str]) -> int:
     rc = EXIT_HARNESS
     try:
         os.chdir(scratch)
+        if _REPO != "/repo":
+            sys.path.insert(0, _REPO)
         modname = _harness_module(prop)
         # pre-import heavy things once in the parent; children are forked from here
         import crosshair.core_and_libs  # noqa
@@ -372,8 +375,8 @@ def main(argv: List[str]) -> int:
 def _repo_rev() -> str:
     import subprocess
     try:
-        h = subprocess.run(["git", "-C", "/repo", "rev-parse", "--short", "HEAD"], capture_output=True, text=True).stdout.strip()
-        d = subprocess.run(["git", "-C", "/repo", "status", "--porcelain", "--untracked-files=no"], capture_output=True, text=True).stdout.strip()
+        h = subprocess.run(["git", "-C", _REPO, "rev-parse", "--short", "HEAD"], capture_output=True, text=True).stdout.strip()
+        d = subprocess.run(["git", "-C", _REPO, "status", "--porcelain", "--untracked-files=no"], capture_output=True, text=True).stdout.strip()
         return h + ("+dirty" if d else "")
     except Exception:
         return "?"
